@@ -128,7 +128,7 @@ func pkColumns(schema *sdb.Schema, ind *sdb.SchemaIndex) []int {
 		// has that column with the same collation
 		in := -1
 		for i, ic := range ind.Columns {
-			if sql.EqualFold(ic.Column, c.Column) && collate(ic.Collate) == collate(c.Collate) {
+			if ic.Expression == "" && sql.EqualFold(ic.Column, c.Column) && collate(ic.Collate) == collate(c.Collate) {
 				in = i
 				break
 			}
